@@ -105,15 +105,17 @@ theorem C17_copy_char_balanced (failAt : Nat) (s : St) (old : Owned) (rest : Lis
     (rc = OK ↔ failIds st.evs = failIds s.evs) :=
   copyChar_summary failAt old s rest hb hc
 
-/-- cif_value_deserialize of the blob of a list value (elements: unknown/na, character values, lists of such, any
-    nesting and width; numbers and tables are not covered) onto an existing value object, every fault position:
-    no double / invalid free; on failure every element object, text and element array obtained so far is released
-    exactly once and nothing stays live; on success exactly the blocks the destination gained are live; CIF_OK exactly
-    when no request failed, otherwise CIF_ERROR. -/
+/-- cif_value_deserialize of the blob of a list value (elements: unknown/na, character values, numbers — whose
+    cif_value_parse_numb allocates su_digits and digits and, since /repo fe019d6, no longer loses the text —, lists of such,
+    any nesting and width; table blobs: C17_deserialize_table_balanced in Props/C17Map.lean) onto an existing value object,
+    every fault position: no double / invalid free; on failure every element object, text, digit string and element array
+    obtained so far is released exactly once and nothing stays live; on success exactly the blocks the destination gained
+    are live; CIF_OK exactly when no request failed, otherwise CIF_MEMORY_ERROR (since /repo 2b403f6; the correspondence
+    compares the code itself). -/
 theorem C17_deserialize_balanced (elems : List DShape) (failAt : Nat) :
     let (rc, gained, st) := deserialize failAt elems
     Balanced st.evs (match gained with | some g => g | none => []) ∧
-    (rc = OK ∨ rc = ERROR) ∧ (rc = OK ↔ gained.isSome) ∧ (rc = OK ↔ NoFail st.evs) :=
+    (rc = OK ∨ rc = MEMORY_ERROR) ∧ (rc = OK ↔ gained.isSome) ∧ (rc = OK ↔ NoFail st.evs) :=
   deser_summary failAt elems
 
 /-- cif_packet_create WITH THE PROPOSED REPAIR of cif_packet_create_norm's failure handler (notes/agents/gI-fixes.diff),
@@ -299,7 +301,7 @@ example :
     and the outer array 1 are released -/
 example :
     (deserialize 0 [.chr, .lst [.chr, .scalar]]).2.2.count = 8 ∧
-    (deserialize 7 [.chr, .lst [.chr, .scalar]]).1 = ERROR ∧
+    (deserialize 7 [.chr, .lst [.chr, .scalar]]).1 = MEMORY_ERROR ∧
     (deserialize 7 [.chr, .lst [.chr, .scalar]]).2.2.evs = [.alloc 1, .alloc 2, .alloc 3, .alloc 4, .alloc 5, .alloc 6,
       .fail 7, .free 6, .free 5, .free 4, .free 3, .free 2, .free 1] ∧
     final (deserialize 7 [.chr, .lst [.chr, .scalar]]).2.2.evs = some [] := by decide +kernel
